@@ -45,12 +45,27 @@ RULE = ('case = (algorithm configuration, search space, run length N); inside a 
         'handed to recover() in a form that rotates from crash point to crash '
         'point: list, tuple, generator, iter(), zip, map, deque, an unsized '
         're-iterable and a once-only Iterable; a difference that a list of the '
-        'same entries does not show is keyed with the kind of the form), and '
+        'same entries does not show is keyed with the kind of the form; and '
+        'in a delivery that rotates independently of the form: in one '
+        'recover() call or cut into 2..4 consecutive pieces, one recover() '
+        'call per piece, with an empty first / last / middle piece, a cut '
+        'between the answered and the pending proposals or among the pending '
+        'ones, a cut inside or right after the proposals that fill the initial '
+        'population of an Evolution, or random cuts; a difference that one '
+        'call with the same entries does not show is keyed '
+        '<class>.recover+piecewise-history), and '
         'proposal/'
         'feedback counts at every wrapper level, population with fitness, the '
+        'num_generations of an Evolution, the '
         'de-duplication memory (probe proposals through a harness-driven inner '
-        'generator) and, for history-determined algorithms, the next M '
-        'proposals are compared. Algorithm seeds and sizes are drawn from the '
+        'generator), for history-determined algorithms the next M '
+        'proposals, and for evolution-based ones whether the next proposal is a '
+        'member of the initial population or a child are compared. '
+        'Configurations: Sweeping, Random, the evolution-based algorithms, '
+        'Deduping over each of them and over harness-driven generators, and '
+        'user-defined generators that recover through the default recover() (a '
+        'subclass whose proposals are a function of its public counters and '
+        'the rewards fed back; a pg.geno.dna_generator function). Algorithm seeds and sizes are drawn from the '
         'case RNG. Spaces: choices (nested, conditional, multi-choices), '
         'floats, and custom decision points whose next_dna_fn sweeps in an '
         'order that is not the order of their string values (with N raised '
@@ -58,6 +73,10 @@ RULE = ('case = (algorithm configuration, search space, run length N); inside a 
         'with k >= 2; distinct by (configuration, parameters, space, N, '
         'longest live history).')
 REQUIRED_COUNTERS = ['crash_points', 'crash_points_pending',
+                     'crash_points_piecewise', 'crash_points:empty-last-piece',
+                     'crash_points:cut-before-pending',
+                     'crash_points:cut-inside-population-fill',
+                     'num_generations_compares', 'phase_compares',
                      'crash_points_one_shot_history', 'crash_points_custom_space',
                      'count_compares',
                      'population_compares', 'continuation_compares',
@@ -68,8 +87,9 @@ ASSUMPTIONS = [
     'Sweeping (alone or under Deduping) is not run on spaces with float decision points (documented as unsupported by next_dna)',
     'custom decision points come with next_dna_fn and random_dna_fn over a finite list of strings (without them sweeping / random generation is documented as unsupported)',
     'recover() is documented to take an Iterable of (DNA, reward) tuples: any Iterable of the persisted entries (sequence, one-shot iterator, unsized or once-only Iterable) must recover the same state',
-    'continuation is compared only for sweeping, seeded random and Deduping over them; evolution-based algorithms are compared on counts and population with fitness',
-    'state of the population initializer of an Evolution and its global_state are not part of the compared state (not named by the property)',
+    'recover() is documented as callable several times before the first propose (several sources of history): the persisted history cut into consecutive pieces, one call per piece in order (a source may be empty), is the same history and must recover the same state',
+    'continuation is compared only for sweeping, seeded random, Deduping over them and user-defined generators whose proposals are a function of counters and rewards (with feedbacks in between: the one proposal that follows the crash point); evolution-based algorithms are compared on counts, population with fitness, num_generations and on whether the proposal that follows the crash point is a member of the initial population (decided by the number of feedbacks in the history, not by the seed)',
+    'state of the population initializer of an Evolution and the entries of its global_state other than num_generations (they belong to the operations of the algorithm: elites, species, cursors) are not part of the compared state (not named by the property); a library error of the recovered instance when it is asked for the proposal after the crash point is counted like one of the uninterrupted run',
     'proposals of an inner generator that Deduping dropped as duplicates are not in the persisted history: the recovered inner num_proposals may be lower than the uninterrupted one by at most their number',
     'de-duplication memory is probed with a harness-defined inner DNAGenerator (the documented extension point) whose next proposal the harness dictates',
     'an exception of the UNINTERRUPTED run (e.g. NEAT divides by zero when all members of a generation have the same fitness; an Evolution without any evaluated individual cannot reproduce) ends that run and is counted, not reported: the property speaks about recovery only. NEAT rewards get a position-dependent tie-break so that this is rare',
@@ -184,6 +204,32 @@ class PuppetFeedback(Puppet):
 
   def _feedback(self, dna, reward):
     pass
+
+
+class Counting(pg.DNAGenerator):
+  """A user-defined generator (the documented extension point, recovering
+  through the default `recover`): its next proposal is a function of its
+  public counters and of the best reward it was fed back."""
+
+  def _setup(self):
+    self._all = list(self.dna_spec.iter_dna())
+    self._best = 0.0
+
+  def _propose(self):
+    i = self.num_proposals + 2 * self.num_feedbacks + int(self._best * 4)
+    return self._all[i % len(self._all)].clone(deep=True)
+
+  def _feedback(self, dna, reward):
+    self._best = max(self._best, reward)
+
+
+@pg.geno.dna_generator
+def drawn(dna_spec):
+  """A generator function (`pg.geno.dna_generator`): state is not recovered,
+  the counters are."""
+  r = random.Random(7)
+  while True:
+    yield pg.random_dna(dna_spec, r)
 
 
 def numbers(dna):
@@ -342,6 +388,10 @@ CONFIGS = [
     Config('Deduping(nsga2,auto_reward_fn)', 'Deduping(nsga2)',
            lambda p: G.Deduping(_nsga2(p), auto_reward_fn=auto_reward_mo),
            _p_pop, False, False, True),
+    Config('custom[counters+feedback]', 'custom[counters+feedback]',
+           lambda p: Counting(), _p_none, True, True, True),
+    Config('custom[dna_generator]', 'custom[dna_generator]',
+           lambda p: drawn(), _p_none, False, False),
     Config('Deduping(puppet)', 'Deduping(puppet)',
            lambda p: G.Deduping(Puppet()), _p_none, False, False),
     Config('Deduping(puppet,hash_fn,max_duplicates=2)',
@@ -376,6 +426,9 @@ def observe(algo):
     s = {'num_proposals': x.num_proposals, 'num_feedbacks': x.num_feedbacks}
     if isinstance(x, evo.Evolution):
       s['population'] = [(numbers(d), evo.get_fitness(d)) for d in x.population]
+      # The counter every Evolution keeps in its global state (the other
+      # entries belong to the operations of the algorithm).
+      s['num_generations'] = x.num_generations
     levels.append(s)
     x = getattr(x, 'generator', None)
   return levels
@@ -690,8 +743,10 @@ def witness(cfg, params, live, **kw):
   return w
 
 
-def compare_state(ctx, cfg, sa, b, pending_sfx, diffs, count=True):
-  """Counts and population at every wrapper level (`sa` = observe(live))."""
+def compare_state(ctx, cfg, sa, b, pending_sfx, diffs, count=True, in_fill=False):
+  """Counts and population at every wrapper level (`sa` = observe(live));
+  `in_fill` = the uninterrupted run has not received the feedbacks that
+  complete the initial population of its Evolution yet."""
   c = ctx.counters if count else collections.Counter()
   sb = observe(b)
   for depth, (la, lb) in enumerate(zip(sa, sb)):
@@ -721,6 +776,16 @@ def compare_state(ctx, cfg, sa, b, pending_sfx, diffs, count=True):
         diffs.append(('population', mech,
                       f'level {depth}: uninterrupted population {la["population"]!r:.500} '
                       f'recovered {lb.get("population")!r:.500}', {}))
+    if 'num_generations' in la:
+      c['num_generations_compares'] += 1
+      ga, gb = la['num_generations'], lb.get('num_generations')
+      # Children that a wrapper dropped as duplicates are not in the history,
+      # and neither is the generation they were the first proposal of.
+      if not (ga == gb or (dropped and isinstance(gb, int) and gb <= ga)):
+        diffs.append(('num-generations',
+                      'Evolution' + ('+population-fill' if in_fill else ''),
+                      f'level {depth}: uninterrupted num_generations={ga}, recovered {gb}',
+                      {'live_state': sa, 'recovered_state': sb}))
 
 
 def next_proposals(ctx, cfg, algo, m):
@@ -805,6 +870,8 @@ def check_crash_point(ctx, cfg, params, spec, live, path, destructive, m):
   k = len(live.history)
   classes = cut_classes(cuts, k, k - j, fill_size(live.algo))
   delivery = (dname, cuts, classes)
+  fill = fill_size(live.algo)
+  in_fill = fill is not None and k - j < fill
   c['crash_points'] += 1
   if j:
     c['crash_points_pending'] += 1
@@ -850,7 +917,7 @@ def check_crash_point(ctx, cfg, params, spec, live, path, destructive, m):
 
   def examine(x, diffs, count):
     """Differences of the recovered instance `x` from the uninterrupted one."""
-    compare_state(ctx, cfg, lv['state'], x, sfx, diffs, count)
+    compare_state(ctx, cfg, lv['state'], x, sfx, diffs, count, in_fill)
     if 'next' in lv:
       cb = next_proposals(ctx, cfg, x, m)
       if lv['next'] != cb:
@@ -1051,8 +1118,13 @@ def run_case(ctx, i):
         if b is None:
           continue
         c['continuation_compares'] += 1
-        exp = future[at:at + m]
-        if len(exp) < m and live.exhausted:
+        # Feedbacks keep arriving between the later proposals of this run: a
+        # configuration whose proposals depend on them is compared on the
+        # proposal that follows the crash point (and on M proposals without
+        # feedback at the end of schedule "tail").
+        ahead = 1 if cfg.feedback else m
+        exp = future[at:at + ahead]
+        if len(exp) < ahead and live.exhausted:
           exp.append('stop')
 
         def continuation(x, exp=exp, at=at):
